@@ -106,3 +106,18 @@ Print Assumptions C13_clip_action_member.
 Theorem C13_clip_action_identity_on_members : forall lo hi a, (lo <= a <= hi)%Q -> clipQ (Fin lo) (Fin hi) a == a.
 Proof. exact clipQ_member_fixed. Qed.
 Print Assumptions C13_clip_action_identity_on_members.
+
+(* LeraxToGymEnv as an object: the episode after reset(seed=r) does not depend on what the adapter did before, and it is the
+   native Gym-style trajectory of the adapted environment under the key chain of r; reset() without a seed continues the chain *)
+From Lerax Require Import AdapterSM AdapterSMProofs.
+Theorem C13_reseed_forgets_history : forall (S A O : Type) (E : env S A O) (g : l2g_obj) before r ops key0,
+  l2g_trace E (l2g_after E g before) (OReset (Some r) :: ops) = l2g_trace E (l2g_new key0) (OReset (Some r) :: ops).
+Proof. exact (@reseed_after_any_use). Qed.
+Print Assumptions C13_reseed_forgets_history.
+
+Theorem C13_episode_after_reseed : forall (S A O : Type) (E : env S A O) (g : l2g_obj) r acts,
+  let '(s, o, i) := gym_reset E (ks r 2 1) in
+  l2g_trace E g (OReset (Some r) :: map (@OStep A) acts) =
+  OutReset s o i :: map (@OutStep S O) (run_gym E s (combine acts (l2g_keys (ks r 2 0) (length acts)))).
+Proof. exact (@episode_after_reseed). Qed.
+Print Assumptions C13_episode_after_reseed.
